@@ -603,7 +603,8 @@ namespace avel {
 
     [[nodiscard]]
     AVEL_FINL vec1x64f fdim(vec1x64f a, vec1x64f b) {
-        return avel::max(a - b, vec1x64f{0.0});
+        //a - b is NaN for equal infinities; <cmath>'s fdim returns +0 there
+        return blend(a <= b, vec1x64f{0.0}, a - b);
     }
 
     [[nodiscard]]
